@@ -51,15 +51,19 @@ func vh_syncOnce(srcRoot, dest string, differ DiffType) vh_syncResult {
 func VH_C02_resync() {
 	m.Reset()
 	src, dest := m.Root("src"), m.Root("dest")
-	m.MkDir(src+"/d", 0755, 1, 1, 5)
-	m.MkFile(src+"/d/f", v.Bytes("f", 1), 0644, 1, 1, vh_mtimeChoices[0])
-	m.MkFile(src+"/e", v.Bytes("e", 1), 0600, 2, 2, vh_mtimeChoices[0])
-	m.MkSymlink(src+"/l", "e", 1, 1, vh_mtimeChoices[0])
-	m.SetMtime(src+"/d", vh_mtimeChoices[1])
+	// setuid/setgid/sticky on the file e and on the directory d are symbolic: an unchanged entry
+	// with special bits is as unchanged as any other
+	ePerm := 0600 | (v.U32("special-e") & 07000)
+	dPerm := 0755 | (v.U32("special-d") & 01000)
+	m.MkDir(src+"/d", dPerm, 1, 1, 5)
+	m.MkFile(src+"/d/f", v.Bytes("f", 1), 0644, 1, 1, vh_mtimes()[0])
+	m.MkFile(src+"/e", v.Bytes("e", 1), ePerm, 2, 2, vh_mtimes()[0])
+	m.MkSymlink(src+"/l", "e", 1, 1, vh_mtimes()[0])
+	m.SetMtime(src+"/d", vh_mtimes()[1])
 	nFiles := 2
 	if v.Bool("listing-name-file") {
 		// an ordinary file that happens to carry the name of the metadata-only listing
-		m.MkFile(src+"/"+metadataPath, []byte("x"), 0644, 1, 1, vh_mtimeChoices[0])
+		m.MkFile(src+"/"+metadataPath, []byte("x"), 0644, 1, 1, vh_mtimes()[0])
 		nFiles++
 		v.Cover("listing-name-file")
 	}
@@ -82,26 +86,26 @@ func VH_C02_resync() {
 	case 0: // unchanged
 	case 1: // rewrite, same size, new mtime
 		os.Remove(src + "/e")
-		m.MkFile(src+"/e", v.Bytes("e2", 1), 0600, 2, 2, vh_mtimeChoices[1])
+		m.MkFile(src+"/e", v.Bytes("e2", 1), ePerm, 2, 2, vh_mtimes()[1])
 		changed["e"] = true
 	case 2: // rewrite with another size, same mtime
 		os.Remove(src + "/e")
-		m.MkFile(src+"/e", v.Bytes("e2", 2), 0600, 2, 2, vh_mtimeChoices[0])
+		m.MkFile(src+"/e", v.Bytes("e2", 2), ePerm, 2, 2, vh_mtimes()[0])
 		changed["e"] = true
 	case 3: // touch
-		m.SetMtime(src+"/e", vh_mtimeChoices[1])
+		m.SetMtime(src+"/e", vh_mtimes()[1])
 		changed["e"] = true
 	case 4: // chmod (symbolic new mode)
 		nm := v.U32("newmode") & 07777
-		v.Assume(nm != 0600)
+		v.Assume(nm != ePerm)
 		os.Remove(src + "/e")
-		m.MkFile(src+"/e", dataOf("e"), nm, 2, 2, vh_mtimeChoices[0])
+		m.MkFile(src+"/e", dataOf("e"), nm, 2, 2, vh_mtimes()[0])
 		changed["e"] = true
 	case 5: // chown
 		nu := v.U32("newuid")
 		v.Assume(nu != 2)
 		os.Remove(src + "/e")
-		m.MkFile(src+"/e", dataOf("e"), 0600, nu, 2, vh_mtimeChoices[0])
+		m.MkFile(src+"/e", dataOf("e"), ePerm, nu, 2, vh_mtimes()[0])
 		changed["e"] = true
 	case 6: // delete
 		os.Remove(src + "/e")
@@ -113,31 +117,31 @@ func VH_C02_resync() {
 		os.Remove(src + "/d/f")
 		os.Remove(src + "/d")
 		m.MkDir(src+"/d", 0700, 1, 1, 5)
-		m.MkFile(src+"/d/f", dataOf("d/f"), 0644, 1, 1, vh_mtimeChoices[0])
-		m.SetMtime(src+"/d", vh_mtimeChoices[1])
+		m.MkFile(src+"/d/f", dataOf("d/f"), 0644, 1, 1, vh_mtimes()[0])
+		m.SetMtime(src+"/d", vh_mtimes()[1])
 		changed["d"] = true
 	case 9: // touch of a symlink
 		os.Remove(src + "/l")
-		m.MkSymlink(src+"/l", "e", 1, 1, vh_mtimeChoices[1])
+		m.MkSymlink(src+"/l", "e", 1, 1, vh_mtimes()[1])
 		changed["l"] = true
 	case 10: // symlink retargeted (same length)
 		os.Remove(src + "/l")
-		m.MkSymlink(src+"/l", "d", 1, 1, vh_mtimeChoices[0])
+		m.MkSymlink(src+"/l", "d", 1, 1, vh_mtimes()[0])
 		changed["l"] = true
 	case 11: // nested file rewritten, same size, new mtime
 		os.Remove(src + "/d/f")
-		m.MkFile(src+"/d/f", v.Bytes("f2", 1), 0644, 1, 1, vh_mtimeChoices[1])
-		m.SetMtime(src+"/d", vh_mtimeChoices[1])
+		m.MkFile(src+"/d/f", v.Bytes("f2", 1), 0644, 1, 1, vh_mtimes()[1])
+		m.SetMtime(src+"/d", vh_mtimes()[1])
 		changed["d/f"] = true
 	case 12: // a new file appears
-		m.MkFile(src+"/zz", v.Bytes("zz", 1), 0644, 1, 1, vh_mtimeChoices[0])
+		m.MkFile(src+"/zz", v.Bytes("zz", 1), 0644, 1, 1, vh_mtimes()[0])
 		changed["zz"] = true
 	case 13: // chgrp (symbolic new gid) of the nested file
 		ng := v.U32("newgid")
 		v.Assume(ng != 1)
 		os.Remove(src + "/d/f")
-		m.MkFile(src+"/d/f", dataOf("d/f"), 0644, 1, ng, vh_mtimeChoices[0])
-		m.SetMtime(src+"/d", vh_mtimeChoices[1])
+		m.MkFile(src+"/d/f", dataOf("d/f"), 0644, 1, ng, vh_mtimes()[0])
+		m.SetMtime(src+"/d", vh_mtimes()[1])
 		changed["d/f"] = true
 	}
 	differ := DiffMetadata
